@@ -8,6 +8,6 @@ CONSTANTS
   EmitOn = FALSE
 SPECIFICATION Spec
 VIEW View
-INVARIANTS NeverShifted DoneExact ErrIffTruncated Progress Refusals Aligned IndexSound YieldLemma
+INVARIANTS NeverShifted DoneExact ErrIffTruncated Progress Refusals Aligned IndexSound YieldLemma RestingPlace
 PROPERTY Terminates
 CHECK_DEADLOCK FALSE
